@@ -105,6 +105,7 @@ theorem clearWep_wep (h : Hdr) : h.clearWep.wep = false := by
 /-- frame level: `WEPDecrypter::decrypt(PDU&)` in terms of the specification's decapsulation -/
 theorem wepDecrypt_eq (ip : InnerParser) (pws : WepPasswords) (fr : Frame) :
     wepDecrypt ip pws fr = .ok (
+      if !fr.hdr.wep then (false, fr) else
       match fr.inner.findRaw with
       | none => (false, fr)
       | some pload =>
@@ -115,6 +116,10 @@ theorem wepDecrypt_eq (ip : InnerParser) (pws : WepPasswords) (fr : Frame) :
           | some s => (true, ⟨fr.hdr.clearWep, .snap s⟩)
           | none => (false, ⟨fr.hdr, .none⟩)) := by
   unfold wepDecrypt
+  cases hw : fr.hdr.wep with
+  | false => rfl
+  | true =>
+  simp only [Bool.not_true, Bool.false_eq_true, if_false]
   cases hraw : fr.inner.findRaw with
   | none => rfl
   | some pload =>
